@@ -284,7 +284,7 @@ func EmitCoq() (string, error) {
 		"   coreimport.Import + phttp.Import + grpc.Import (what /repo/main.go does) and over cli.DefaultConfig().\n" +
 		"   For every registered (interface, name): constructor shape, config field tree with config/validate\n" +
 		"   tags, and the values of the registered default config.  Do not edit. *)\n")
-	b.WriteString("From Coq Require Import List NArith ZArith QArith Bool.\nFrom PV Require Import Model.ConfigDecode.\nImport ListNotations.\nLocal Open Scope N_scope.\n\n")
+	b.WriteString("From Coq Require Import List NArith ZArith QArith Bool.\nFrom PV Require Import Model.ConfigDecode Model.ConfigApplied.\nImport ListNotations.\nLocal Open Scope N_scope.\n\n")
 	entries := Entries()
 	var names []string
 	for i, e := range entries {
@@ -315,6 +315,7 @@ func EmitCoq() (string, error) {
 	if err != nil {
 		return "", err
 	}
-	fmt.Fprintf(&b, "(* cli.CliConfig and cli.DefaultConfig() *)\nDefinition gen_root_schema : schema :=\n  %s.\n\nDefinition gen_root_default : cval :=\n  %s.\n", s, d)
+	fmt.Fprintf(&b, "(* cli.CliConfig and cli.DefaultConfig() *)\nDefinition gen_root_schema : schema :=\n  %s.\n\nDefinition gen_root_default : cval :=\n  %s.\n\n", s, d)
+	b.WriteString(NewReg().EmitApplied())
 	return b.String(), nil
 }
